@@ -219,9 +219,14 @@ Definition apply_repeat_only (base acc : list mapping) (e : list key * Mapper.re
 
 Definition repeats_a_key (m : mapping) : bool := negb (nodupb (m_from m)) || negb (nodupb (m_to m)).
 
-Definition expand (f : fancy_layout) : res layout :=
+(* the expansion itself *)
+Definition expand_core (f : fancy_layout) : res (list mapping) :=
   per_mapping <- map_res (expand_mapping f) f ;;
   let base := concat per_mapping in
   per_entry <- map_res (repeat_requests f) f ;;
-  let result := fold_left (apply_repeat_only base) (concat per_entry) base in
+  Ok (fold_left (apply_repeat_only base) (concat per_entry) base).
+
+(* ... rejected when a resulting trigger or output lists a key twice *)
+Definition expand (f : fancy_layout) : res layout :=
+  result <- expand_core f ;;
   if existsb repeats_a_key result then Err else Ok result.
